@@ -70,11 +70,33 @@ def divisor_class(crate, den):
     return 'other'
 
 
+def orphan_audits(ctx):
+    """audited divisions whose function no longer contains an (unguarded) division of that class: the audited
+    computation was moved (into a new helper, a renamed or reshaped function)"""
+    present = set()
+    for kind in ('lib', 'bin'):
+        crate = ctx.crates.get(kind)
+        if crate is None:
+            continue
+        for f in crate.non_test_fns():
+            base = f.name.split('::{closure')[0]
+            for dv in e2.f64_divisions(f):
+                cl, okflag, info = e2.classify_division(f, dv)
+                if cl in ('literal', 'guarded'):
+                    continue
+                dclass = divisor_class(crate, dv['den'])
+                for a in AUDITED:
+                    if base.endswith(a[0]) and a[1] == dclass:
+                        present.add((a[0], a[1]))
+    return [a for a in AUDITED if (a[0], a[1]) not in present]
+
+
 def run(ctx, pid, rule_prefix=None):
     """emit the division obligations owned by property pid"""
     rule = '%s.division-guard' % pid
     used = set()
     count = 0
+    orphans = None
     for kind in ('lib', 'bin'):
         crate = ctx.crates.get(kind)
         if crate is None:
@@ -107,7 +129,16 @@ def run(ctx, pid, rule_prefix=None):
                         used.add((aud[0][0], aud[0][1]))
                         ctx.ok(rule, key, text, site, 'audited (%s): %s' % (dclass, aud[0][2]))
                     else:
-                        ctx.bad(rule, key, text, site,
-                                'divisor `%s` is neither tested against zero on a dominating edge nor audited' % info[:160],
-                                breaks='a zero divisor yields NaN / inf probabilities or distances')
+                        if orphans is None:
+                            orphans = orphan_audits(ctx)
+                        moved = [a for a in orphans if a[1] == dclass]
+                        if moved:
+                            # an audited division of the same kind has left its function and this one appeared where
+                            # no audit applies: the audited computation was moved, its invariant is not re-established here
+                            ctx.anchor_lost(rule, 'audited division of %s (divisor class %s)' % (moved[0][0], dclass),
+                                            'a division by `%s` now sits in %s, where the audit (%s) cannot be matched' % (info[:60], base, moved[0][2][:80]))
+                        else:
+                            ctx.bad(rule, key, text, site,
+                                    'divisor `%s` is neither tested against zero on a dominating edge nor audited' % info[:160],
+                                    breaks='a zero divisor yields NaN / inf probabilities or distances')
     return count
